@@ -361,6 +361,7 @@ func main() {
 	seed := flag.Uint64("seed", 1, "")
 	n := flag.Int("n", 20, "scenarios")
 	maxCmds := flag.Int("max-cmds", 8, "")
+	idBase := flag.Int("id-base", 0, "first scenario id")
 	onlyMode := flag.String("mode", "", "force this mode (batch | pipeline | txn | txnpipe)")
 	hot := flag.Int("hot", 4, "every hot-th scenario is a hot-key scenario (0 = none)")
 	shard := flag.Int("shard", 0, "")
@@ -379,9 +380,9 @@ func main() {
 			continue
 		}
 		r := hx.NewRng(*seed*104729 + uint64(s))
-		sc := genScenario(r, s+1, *maxCmds)
+		sc := genScenario(r, s+1+*idBase, *maxCmds)
 		if *hot > 0 && s%*hot == 0 {
-			sc = hotScenario(r, s+1)
+			sc = hotScenario(r, s+1+*idBase)
 		}
 		if *onlyMode != "" {
 			sc.mode = *onlyMode
